@@ -291,8 +291,8 @@ def _observe():
   o['config_str_rebound'] = _try(lambda: gin.config_str(show_provenance=True))
   o['dynamic'] = [_try(lambda: gin.parse_config(_DYN + "dr.function.arg = 'obs'")),
                   _try(gin.config_str), _try(lambda: gin.query_parameter('function.arg'))]
-  o['finalize'] = [_try(gin.finalize), gin.config_is_locked(),
-                   _try(lambda: gin.bind_parameter('f.x', 0)), _try(gin.operative_config_str)]
+  o['finalize'] = [_try(gin.finalize), gin.config_is_locked(), _try(lambda: gin.bind_parameter('f.x', 0))]
+  o['operative_final'] = _try(gin.operative_config_str)
   return o
 
 
@@ -303,7 +303,7 @@ CLAUSE_OF = {
     'calls': 'as_fresh_calls', 'singleton': 'singletons_forgotten',
     'singleton_constructions': 'singletons_forgotten', 'rebind': 'registrations_remain',
     'config_str_rebound': 'no_recorded_imports', 'dynamic': 'no_recorded_imports',
-    'finalize': 'unlocked'}
+    'finalize': 'unlocked', 'operative_final': 'as_fresh_calls'}
 
 _FRESH_CACHE = {}
 
